@@ -319,8 +319,8 @@ def plain_params(fn, where):
 def read(src, name):
     p = os.path.join(src, "bldfm", name + ".py")
     try:
-        txt = open(p).read()
-        return ast.parse(txt, filename=p)
+        import astnorm
+        return astnorm.parse_file(p)  # dict(k=v) = {'k': v}; new single-use temporaries / pure helpers / renamed locals are read as at the baseline (harness/astnorm.py)
     except (OSError, SyntaxError) as e:
         raise TranslateError("cannot parse %s: %s" % (p, e))
 
